@@ -203,7 +203,13 @@ def gitignored_paths(folder_io, file_io):
 
 def expand_relative_ignore_paths(folder_io, relative_paths):
     curr_path = folder_io.path
-    return {os.path.join(curr_path, p[1]) for p in relative_paths if curr_path.startswith(p[0])}
+    # The rules of a .gitignore apply to its own folder and everything below
+    # it (not to `/a/bc` just because `/a/b` is a prefix of that string).
+    return {
+        os.path.join(curr_path, p[1])
+        for p in relative_paths
+        if curr_path == p[0] or curr_path.startswith(os.path.join(p[0], ''))
+    }
 
 
 def recurse_find_python_folders_and_files(folder_io, except_paths=()):
